@@ -69,7 +69,8 @@ CHECKS = {
         'accounting, saved-and-loadable).'
         ' Engine options (ResetOnEmptyInput, WithFirst incl. failing / blocking pre-VM checks) are part of the model programs and drawn for random programs.'
         ' ViseInd.tla shows the session invariants (one scope per level, accounting, path, no panic, TERMINATE gate) to be inductive over the run-loop iteration: one Iter from every invariant-satisfying session of a bounded universe.'
-        ' A refused request (bad format, over-long) leaves the pending code pending (C08_RefusedContinuable).',
+        ' A refused request (bad format, over-long) leaves the pending code pending (C08_RefusedContinuable).'
+        ' After every accepted request the session is blocked / has pending code exactly as the specification says (C08_ReqContinuable).',
    design_ref='DESIGN.md section 6 (C08)',
    note='Trusted: TLC, recorder, generator of well-formed programs. Known findings (CROAK keeps path; maxlevel panic) are matched by specific predicates, everything else fails the check. Example applications: see evidence.',
    technique='TLA+ interpreter spec + TLC model checking + trace validation of recorded real runs (exhaustive small histories, random beyond)'),
@@ -126,7 +127,8 @@ CHECKS = {
         'and a fault plan; TLC explores all operation sequences to a bound with every placement of 1-2 failing primitives and checks NoPanic, ErrorReported, NoWedge/AckedVisible, '
         'EndedOnce, Multi against a keyed-map oracle; every behaviour is executed on the real pgDb over an in-process fake of the pgx interface and TLC judges every real operation '
         'against the oracle folded over the recorded sequence.'
-        ' Statements may also fail on the client side (transaction not poisoned); the committed content of the server is observed after every operation: nothing becomes durable that was never acknowledged (C13_NoUnackedDurable).',
+        ' Statements may also fail on the client side (transaction not poisoned); the committed content of the server is observed after every operation: nothing becomes durable that was never acknowledged (C13_NoUnackedDurable).'
+        ' COMMIT / ROLLBACK / statements that reach a finished transaction are logged by the model and the fake: no transaction is ended twice (C13_NotEndedTwice, not excusable by the known finding).',
    design_ref='DESIGN.md section 6 (C13)',
    note='Trusted: TLC, fakepg (120-line transactional fake), oracle in PgTx.tla. One known finding (sticky multi) excused only for operations after an explicit transaction has ended on the handle.',
    technique='TLA+ spec (PgTx.tla) + TLC exhaustive fault enumeration + trace validation of the real handle over a fake server'),
@@ -172,7 +174,8 @@ CHECKS = {
         'elements, type-prefix characters) and emits every colliding pair; each pair is replayed on the real backends as write-under-a / read-under-b, random adversarial histories are recorded, and '
         'TLC checks on every real read / listing that the returned value was written under the same data type and session (unique values carry their provenance).'
         ' Sessions working at the same time on one filesystem directory through their own handles read back only what they wrote (C11_ConcOwnData); listings of the Postgres driver (key-range scan on the fake) are judged for cross-type / cross-session entries.'
-        ' Families of session ids and keys that differ in one punctuation character (every ordered pair) and the empty key are part of the universes.',
+        ' Families of session ids and keys that differ in one punctuation character (every ordered pair) and the empty key are part of the universes.'
+        ' Stage E: sessions whose ids differ in surrounding white space, letter case or one punctuation character are served through per-request engines over one directory and compared with themselves alone (C11_EngineSessionsApart).',
    design_ref='DESIGN.md section 6 (C11)',
    note='Trusted: TLC, recorder provenance table. Three known findings (dot ambiguity, fs path cleaning, fs legacy name) matched by predicates over the recorded history; any other cross-read fails the check.',
    technique='TLA+ spec + TLC injectivity enumeration + trace validation with value provenance on four real backends'),
@@ -182,7 +185,8 @@ CHECKS = {
         'assumed but recorded from the real code with strace and fed to the model, so TLC enumerates every crash point of what the code really does; the real saving process is then killed '
         '(strace fault injection, SIGKILL on entry to the call) at every store-touching system call of the save, for several consecutive old/new state pairs; a fresh process loads the session, '
         'classifies it old / new / corrupt / missing, serves one more request (must continue, not restart) and checks the neighbouring session\'s record; model prediction and real outcome must agree.'
-        " The two sessions' ids differ in one punctuation character; the neighbour's record is compared before and after the session is served.",
+        " The two sessions' ids differ in one punctuation character; the neighbour's record is compared before and after the session is served."
+        ' While the session is taken down the application writes data of its own through the same store handle.',
    design_ref='DESIGN.md section 6 (C12)',
    note='Trusted: strace injection, the single-threaded saver, the classification by projection of the loaded state. A process death cannot tear one write(2): torn writes are model-only.',
    technique='TLA+ crash model over a strace-recorded operation sequence + real SIGKILL injection at every recorded crash point'),
@@ -193,7 +197,8 @@ CHECKS = {
         'real VM (the run-loop hook is the scheduler gate) and compared with solo runs; free-running randomized sessions on 2..16 goroutines over one shared resource (slices with and without spare '
         'capacity) run under the Go race detector with transcript comparison and a check that shared data is unmodified.'
         " FsSaveConc.tla: the file operations of two real saves (strace) run as two processes over a directory with names, inodes and open files; TLC explores every interleaving (each record ends as its own session's complete state). Free-running mode F: own fs store handles on one shared directory."
-        ' Half of the histories are served with a configured default language; the language a session ends each request with is part of the transcripts.',
+        ' Half of the histories are served with a configured default language; the language a session ends each request with is part of the transcripts.'
+        ' A third of the histories run with state debugging; the solo references are computed after the concurrent phase so that lazy first-use initialisation happens while sessions run side by side.',
    design_ref='DESIGN.md section 6 (C19)',
    note='Trusted: TLC, the Go race detector (decides the "no data race" half), the hook gate. The model covers aliasing of the code buffer; other shared state is searched for by the race detector only.',
    technique='TLA+ interleaving/aliasing model + TLC schedules replayed deterministically + race-detector runs'),
